@@ -15,7 +15,7 @@ def decorate(ctx, w, mon_p=0.5):
         arr.append({"t": a["t"], "sz": a["sz"], "src": rng.choice([0, 1, 1, 2]), "un": a.get("un", -1), "ud": a.get("ud", 1)})
     # closed-loop arrivals: handed in a few zero-delay steps after the k-th departure (inside the instant of a departure)
     for _ in range(rng.choice([0, 0, 0, 1, 2])):
-        arr.append({"t": -1, "after": [rng.randint(1, max(1, len(arr))), rng.choice([1, 1, 2, 3])], "sz": rng.choice([1, 2, 3]),
+        arr.append({"t": -1, "after": [rng.randint(1, max(1, len(arr))), rng.choice([0, 0, 1, 1, 2, 3])], "sz": rng.choice([1, 2, 3]),
                     "un": rng.choice([0, 1, 3]), "ud": 4})
     sc = {"cfg": w["cfg"], "arr": arr, "elid": rng.choice(["p1", "east-3"])}
     if rng.random() < mon_p:
